@@ -58,33 +58,33 @@ type fnTrans struct {
 	asserts []string
 	obls    []*Obligation
 
-	entry    *State
-	cur      *State
-	guard    string
-	blockOut map[*ssa.BasicBlock]*State
-	outGuard map[*ssa.BasicBlock]string
-	loops    []*loopInfo
-	hdrLoop  map[*ssa.BasicBlock]*loopInfo
-	backEdge map[[2]int]bool
-	counters map[string]int
-	notes    []string
-	unsup    []string
-	defers   []*ssa.Defer
-	params   map[string]Term
-	results  []Term
-	debug    map[string][]ssa.Value // source variable name -> SSA values (DebugRef order)
-	debugAddr map[string]*ssa.Alloc
-	curBlock *ssa.BasicBlock
-	retCount int
-	trustedUsed map[string]bool
-	frefs    map[string]bool
-	nonblocking bool
-	callTexts   map[token.Pos]string
-	callFull    map[token.Pos]string
-	candCache   map[string][]varCand
-	curIdx      int
-	iterCovered map[string]int
-	deferGuard  map[*ssa.Defer]string
+	entry        *State
+	cur          *State
+	guard        string
+	blockOut     map[*ssa.BasicBlock]*State
+	outGuard     map[*ssa.BasicBlock]string
+	loops        []*loopInfo
+	hdrLoop      map[*ssa.BasicBlock]*loopInfo
+	backEdge     map[[2]int]bool
+	counters     map[string]int
+	notes        []string
+	unsup        []string
+	defers       []*ssa.Defer
+	params       map[string]Term
+	results      []Term
+	debug        map[string][]ssa.Value // source variable name -> SSA values (DebugRef order)
+	debugAddr    map[string]*ssa.Alloc
+	curBlock     *ssa.BasicBlock
+	retCount     int
+	trustedUsed  map[string]bool
+	frefs        map[string]bool
+	nonblocking  bool
+	callTexts    map[token.Pos]string
+	callFull     map[token.Pos]string
+	candCache    map[string][]varCand
+	curIdx       int
+	iterCovered  map[string]int
+	deferGuard   map[*ssa.Defer]string
 	currentLemma string
 	globalSeen   map[string]bool
 }
